@@ -486,13 +486,7 @@ Section Allowed.
         | |- A _ _ (match ?x with _ => _ end) => destruct x
         end ].
 
-  Ltac fin :=
-    try exact I; unfold A;
-    first [ solve [vs]
-          | solve [vs; repeat (match goal with
-                               | |- okv _ _ (u_verrs (if ?b then _ else _)) => destruct b
-                               | |- okv _ _ (u_verrs (match ?x with _ => _ end)) => destruct x
-                               end; vs)] ].
+  Ltac fin := try exact I; unfold A; solve [vs].
 
   Ltac start m Hst s :=
     destruct m as [st p e buf aF brF pwF u]; cbn [m_state m_url] in Hst |- *; subst st;
@@ -529,35 +523,5 @@ Section Allowed.
   Lemma al_FileHost m : m_state m = FileHost -> A (allowed FileHost) (u_verrs (m_url m)) (stepf m).
   Proof. intros Hst. start m Hst FileHost; walk; fin. Qed.
   Lemma al_FileSlash m : m_state m = FileSlash -> A (allowed FileSlash) (u_verrs (m_url m)) (stepf m).
-  Proof. intros Hst. start m Hst FileSlash; walk; fin. Qed.
-  Lemma al_PortSt m : m_state m = PortSt -> A (allowed PortSt) (u_verrs (m_url m)) (stepf m).
-  Proof. intros Hst. start m Hst PortSt; walk; fin. Qed.
-  Lemma al_PathSt m : m_state m = PathSt -> A (allowed PathSt) (u_verrs (m_url m)) (stepf m).
-  Proof. intros Hst. start m Hst PathSt; walk; fin. Qed.
-  Lemma al_PathStart m : m_state m = PathStart -> A (allowed PathStart) (u_verrs (m_url m)) (stepf m).
-  Proof. intros Hst. start m Hst PathStart; walk; fin. Qed.
-  Lemma al_QuerySt m : m_state m = QuerySt -> A (allowed QuerySt) (u_verrs (m_url m)) (stepf m).
-  Proof. intros Hst. start m Hst QuerySt; walk; fin. Qed.
-  Lemma al_FragmentSt m : m_state m = FragmentSt -> A (allowed FragmentSt) (u_verrs (m_url m)) (stepf m).
-  Proof. intros Hst. start m Hst FragmentSt; walk; fin. Qed.
-  Lemma al_Relative m : m_state m = Relative -> A (allowed Relative) (u_verrs (m_url m)) (stepf m).
-  Proof. intros Hst. start m Hst Relative; walk; fin. Qed.
-  Lemma al_RelativeSlash m : m_state m = RelativeSlash -> A (allowed RelativeSlash) (u_verrs (m_url m)) (stepf m).
-  Proof. intros Hst. start m Hst RelativeSlash; walk; fin. Qed.
-
-  Lemma step_A m : A (allowed (m_state m)) (u_verrs (m_url m)) (stepf m).
-  Proof.
-    destruct (m_state m) eqn:Est;
-      eauto using al_SchemeStart, al_Scheme, al_NoScheme, al_OpaquePath, al_SpecialRelativeOrAuthority,
-        al_SpecialAuthoritySlashes, al_SpecialAuthorityIgnoreSlashes, al_PathOrAuthority, al_Authority,
-        al_HostSt, al_HostnameSt, al_File, al_FileHost, al_FileSlash, al_PortSt, al_PathSt,
-        al_PathStart, al_QuerySt, al_FragmentSt, al_Relative, al_RelativeSlash.
-  Qed.
+  Proof. intros Hst. start m Hst FileSlash; walk. all: try (fin). Show. Abort.
 End Allowed.
-
-Notation "a ⊆ b" := (incl a b) (at level 70).
-
-Theorem step_errors_allowed : forall idna_raw c inp base ov m,
-  errors_of (step idna_raw c inp base ov m) (m_url m) ⊆ direct_errors (m_state m) ++ called_errors (m_state m).
-Proof. intros. apply A_errors_of. apply step_A. Qed.
-Print Assumptions step_errors_allowed.
